@@ -92,6 +92,75 @@ fn check_membership(c: &MemberCase, st: &mut Stats) -> Result<(), Failure> {
     Ok(())
 }
 
+/// membership where the route in question shares a request path with a neighbour whose range is
+/// disjoint: an exact route and a wildcard route below it (the wildcard also matches the empty
+/// remainder), a literal and a variable at the same position, or two endpoints of one route
+#[derive(Clone, Debug, Serialize, Deserialize)]
+struct ShapeCase {
+    shape: u8,
+    first: MRange,
+    second: MRange,
+    swap: bool,
+}
+
+fn check_shape(c: &ShapeCase, st: &mut Stats) -> Result<(), Failure> {
+    let mut a = ep("first_op", "GET", &c.first);
+    let mut b = ep("second_op", "GET", &c.second);
+    let (request, name): (&str, &str) = match c.shape % 3 {
+        0 => {
+            b.segs = vec![Seg::Lit("p".into()), Seg::Wild("rest".into())];
+            ("/p", "exact /p + wildcard /p/{rest:.*}, request /p")
+        }
+        1 => {
+            a.segs = vec![Seg::Lit("p".into()), Seg::Lit("x".into())];
+            b.segs = vec![Seg::Lit("p".into()), Seg::Lit("x".into()), Seg::Wild("rest".into())];
+            ("/p/x/", "exact /p/x + wildcard /p/x/{rest:.*}, request /p/x/")
+        }
+        _ => ("/p", "two endpoints on /p"),
+    };
+    let table = if c.swap { vec![b.clone(), a.clone()] } else { vec![a.clone(), b.clone()] };
+    let api = match build_api(&table) {
+        Ok(x) => x,
+        Err(m) => fail!("disjoint-ranges-refused", "{}: [{}] and [{}] share no version but registration failed: {}", name, c.first.text(), c.second.text(), m),
+    };
+    let lookup = into_lookup(api);
+    let segs: Vec<String> = request.split('/').filter(|s| !s.is_empty()).map(|s| s.to_string()).collect();
+    for v in pool_probes() {
+        let want: Option<&str> = if c.first.contains(&v) {
+            Some("first_op")
+        } else if c.second.contains(&v) {
+            Some("second_op")
+        } else {
+            None
+        };
+        // the flat reference matcher must agree with the range arithmetic (self-test of the model)
+        let d = dispatch(&table, "GET", &segs, Some(&v));
+        ensure!(d.first().map(|x| x.0.op.as_str()) == want && d.len() <= 1, "harness-shape-model", "{} [{}]/[{}] @{}: model dispatch {:?}", name, c.first.text(), c.second.text(), v.text(), d.iter().map(|x| x.0.op.clone()).collect::<Vec<_>>());
+        let out = lookup("GET", request, Some(&v));
+        st.eval();
+        let got = match &out {
+            LookupOut::Found { op, .. } => Some(op.as_str()),
+            _ => None,
+        };
+        ensure!(
+            got == want,
+            format!("membership-served-shape:{}", c.shape % 3),
+            "{}: first [{}], second [{}]{}: GET {} @{} must be served by {:?}, router says {:?}",
+            name,
+            c.first.text(),
+            c.second.text(),
+            if c.swap { " (second registered first)" } else { "" },
+            request,
+            v.text(),
+            want,
+            out
+        );
+    }
+    st.nontrivial(hash_of(&format!("{:?}", c)));
+    st.sample(|| json!({"shape": name, "first": c.first.text(), "second": c.second.text()}));
+    Ok(())
+}
+
 #[derive(Clone, Debug, Serialize, Deserialize)]
 struct PairCase {
     first: MRange,
@@ -485,7 +554,7 @@ fn check_header(lives: &[Live], rt: &tokio::runtime::Runtime, c: &HeaderCase, st
 }
 
 pub fn run(ctx: &mut Ctx) {
-    ctx.rule = "membership/conflict: complete enumeration of all 43 ranges over a 7-version ordered pool (with pre-releases) x 9 probes and all 1849 ordered pairs, plus random semver triples; non-trivial = probe on a range bound or with a pre-release, pair sharing a bound or containing a one-version range; header cases against three APIs (a ladder of ranges partitioning the version line; only unrestricted endpoints; an unrestricted endpoint plus a restricted one elsewhere): non-trivial = pool/pre-release versions and every refusal class instance (distinct by value)".into();
+    ctx.rule = "membership_shapes: every pair of disjoint ranges on an exact route + the wildcard route below it (request = the exact path, with and without trailing slash) or on one route, both registration orders, 9 probes each; membership/conflict: complete enumeration of all 43 ranges over a 7-version ordered pool (with pre-releases) x 9 probes and all 1849 ordered pairs, plus random semver triples; non-trivial = probe on a range bound or with a pre-release, pair sharing a bound or containing a one-version range; header cases against three APIs (a ladder of ranges partitioning the version line; only unrestricted endpoints; an unrestricted endpoint plus a restricted one elsewhere): non-trivial = pool/pre-release versions and every refusal class instance (distinct by value)".into();
     ctx.assume("build metadata is never generated (precedence ignores it and the macro rejects it)");
     ctx.assume("the least semver version 0.0.0-0 is not used as an Until bound (empty range)");
 
@@ -500,6 +569,21 @@ pub fn run(ctx: &mut Ctx) {
         }
     }
     ctx.enumerate("membership", cases, true, check_membership);
+
+    let mut shapes = vec![];
+    for a in &ranges {
+        for b in &ranges {
+            if a.overlaps(b) {
+                continue;
+            }
+            for shape in 0..3u8 {
+                for swap in [false, true] {
+                    shapes.push(ShapeCase { shape, first: a.clone(), second: b.clone(), swap });
+                }
+            }
+        }
+    }
+    ctx.enumerate("membership_shapes", shapes, true, check_shape);
 
     let mut pairs = vec![];
     for a in &ranges {
